@@ -129,14 +129,25 @@ def parse_blocks(data):
     elif key is not None: blocks[key] = blocks[key][:-1] if blocks[key].endswith(b"\n") and data.endswith(b"\n") else blocks[key]
     return blocks, junk
 
-def c08_case(ctx, rng, n_targets, kind):
+def c08_case(ctx, rng, n_targets, kind, listener="none"):
+    """listener: "none" | "alive" (a `log tail` attached and read for the whole run) | a float (attached, then killed that many
+    seconds into the run).  What is stored must be what the executables wrote in every one of these situations."""
     cfg, script, written = make_case(rng, n_targets, kind)
     rr = runscen.RunRepo(ctx, cfg, commands=["build"])
+    lst = None
     try:
         rr.script = script; rr.write_script()
+        if listener != "none":
+            import threading
+            lst = start_listener(rr, ["--stdout", "--stderr"])
+            threading.Thread(target=lambda: [None for _ in iter(lambda: lst.stdout.read(65536), b"")], daemon=True).start()
+            if isinstance(listener, float): threading.Timer(listener, lst.kill).start()
         rc, out, err, raw = rr.run("-c", "build", timeout=180)
-        case = {"targets": n_targets, "kind": kind, "script": script}
-        ctx.count("kind_" + kind); ctx.count("targets_%d" % n_targets)
+        if lst is not None:
+            if lst.poll() is None: lst.kill()
+            lst.wait()
+        case = {"targets": n_targets, "kind": kind, "script": script, "listener": listener}
+        ctx.count("kind_" + kind); ctx.count("targets_%d" % n_targets); ctx.count("listener_%s" % (listener if isinstance(listener, str) else "killed_mid_run"))
         if out is None or rc != 0:
             ctx.record(case, True, False, False, True, detail={"what": "run failed", "rc": rc, "err": err}); return
         bad, agree, logs = check_stored(ctx, rr, out, written, case)
@@ -309,6 +320,9 @@ def run(ctx, scale, focus):
     if focus == "C08":
         plan = [(4, "mixed"), (24, "text"), (8, "mixed"), (2, "mixed"), (12, "mixed")] if ctx.quick() else [(n, k) for n in (1, 2, 4, 8, 16, 24) for k in ("text", "mixed")] * 6
         for n, kind in plan * scale: c08_case(ctx, random.Random(rng.getrandbits(32)), n, kind)
+        # the same with a `log tail` listener attached: alive throughout, or dying while the tasks are still writing
+        lplan = [(4, "mixed", "alive"), (6, "text", 0.3), (4, "mixed", 0.8)] if ctx.quick() else [(n, k, l) for n in (2, 6, 12) for k in ("text", "mixed") for l in ("alive", 0.2, 0.6, 1.2)]
+        for n, kind, l in lplan * scale: c08_case(ctx, random.Random(rng.getrandbits(32)), n, kind, l)
     elif focus == "C15":
         plan = [("never", ["--stdout", "--stderr"]), (0.25, ["--stdout", "--stderr"]), ("before", ["--stdout"]), (0.7, ["--stderr", "-t", "t00"]), (0.05, ["--stdout", "--stderr"]),
                 ("handshake", ["--stdout", "--stderr"])]
@@ -325,7 +339,7 @@ def run(ctx, scale, focus):
 def replay(ctx, case, focus):
     c = case.get("case", case)
     rng = random.Random(ctx.seed)
-    if focus == "C08": c08_case(ctx, rng, c.get("targets", 4), c.get("kind", "mixed"))
+    if focus == "C08": c08_case(ctx, rng, c.get("targets", 4), c.get("kind", "mixed"), c.get("listener", "none"))
     elif focus == "C15": c15_case(ctx, rng, c.get("targets", 4), c.get("listener_killed", 0.25), c.get("filters", ["--stdout", "--stderr"]))
     else: c20_case(ctx, rng, c.get("targets", 4), c.get("filters", ["--stdout", "--stderr"]), c.get("crlf", False), c.get("burst", 0), c.get("paused", 0))
     return {"spec_failures": [d for _, d in ctx.spec_failures][:3], "disagreements": [d for _, d in ctx.tie_breaks][:3]}
